@@ -782,7 +782,8 @@ constexpr std::size_t DNS_HEADER_SIZE = 12;
 constexpr std::size_t DNS_MAX_UDP_SIZE = 512;
 constexpr std::size_t DNS_MAX_TCP_SIZE = 65535;
 constexpr std::size_t DNS_MAX_LABEL_SIZE = 63;
-constexpr std::size_t DNS_MAX_NAME_SIZE = 253;
+constexpr std::size_t DNS_MAX_NAME_SIZE = 253;      // Presentation format, no trailing dot
+constexpr std::size_t DNS_MAX_NAME_WIRE_SIZE = 255; // Wire format, length and root octets included
 constexpr std::uint8_t DNS_COMPRESSION_MASK = 0xC0;
 constexpr std::uint16_t DNS_COMPRESSION_POINTER_MASK = 0x3FFF;
 } // namespace constants
